@@ -88,6 +88,10 @@ MENU: list[tuple[str, str]] = [
               "    case _:\n        b = 3"),
     ("super", "super().m(a)"),
     ("nested", "def g(a):\n    return -a"),
+    # child lists that hold None before a node (arguments.kw_defaults, Dict.keys): list positions
+    # and node positions differ there
+    ("kwonly", "def h(*, scale, offset=1):\n    return scale + offset"),
+    ("dictspread", 'a = {**b, "retries": 3, **c, 1: 2}'),
 ]
 MENU_NAMES = [n for n, _ in MENU]
 _SRC = dict(MENU)
